@@ -8,7 +8,7 @@ import coqemit as E
 
 ID = "C16"
 PROPS = "Props/C16.v"
-IMPORTS = "From Coq Require Import PrimFloat.\nFrom PV Require Import Lib.Common Model.C16_Store Model.C16_Codec Model.C16_Heap Gen.C16_Fields."
+IMPORTS = "From Coq Require Import String.\nFrom PV Require Import Lib.Common Lib.C16_Spec Model.C16_Store Gen.C16_Fields."
 SHARD = 40
 SERIAL = False
 LEVEL_TEXT = "TODO"
@@ -230,3 +230,63 @@ def run_impl(case):
     with warnings.catch_warnings():
         warnings.simplefilter("ignore")
         return {"h5": run_h5}[case["kind"]](case)
+
+# ------------------------------------------------------------------------------------------------ Coq emission
+Z = E.z
+def zstr(s): return "[" + "; ".join(str(ord(c)) for c in s) + "]%Z" if s else "[]"
+def zbytes(b): return "[" + "; ".join(str(int(c)) for c in b) + "]%Z" if b else "[]"
+def zl(xs): return "[" + "; ".join(("(%d)" % x) if x < 0 else str(x) for x in xs) + "]%Z" if xs else "[]"
+DT = {"i8": "TI8", "i32": "TI32", "i64": "TI64", "b": "TBool", "f64": "TF64"}
+def _data(v):
+    return [fbits(float.fromhex(x)) for x in v["d"]] if v["t"] == "f64" else [int(x) for x in v["d"]]
+def e_sval(v):
+    t = v["t"]
+    if t in DT: return "(VArr %s %s %s)" % (DT[t], zl(v["sh"]), zl(_data(v)))
+    if t == "str": return "(VStrs %s)" % E.lst(v["d"], zstr)
+    if t == "bytes": return "(VBytess %s)" % E.lst(v["d"], zbytes)
+    if t == "int": return "(VInt %s)" % Z(v["v"])
+    if t == "float": return "(VFloat %s)" % Z(fbits(float.fromhex(v["v"])))
+    if t == "s": return "(VStr %s)" % zstr(v["v"])
+    if t == "by": return "(VBytes %s)" % zbytes(v["v"])
+    raise ValueError("value of kind %r has no model counterpart" % t)
+def e_oval(v):
+    if v["t"] == "dict":
+        return "(OD %s)" % E.lst(sorted(v["v"].items()), lambda kv: "(%s, %s)" % (zstr(kv[0]), E.opt(kv[1], e_sval)))
+    return "(OS %s)" % e_sval(v)
+def e_obj(o, order):
+    return E.lst([k for k in order if k in o], lambda k: "(%s, %s)" % (E.s(k), E.opt(o[k], e_oval)))
+def e_dset(v):
+    t = v["t"]
+    if t in DT: return "(DArr %s %s %s)" % (DT[t], zl(v["sh"]), zl(_data(v)))
+    if t == "bytes": return "(DStrs %s)" % E.lst(v["d"], zbytes)
+    if t == "by": return "(DStr %s)" % zbytes(v["v"])
+    raise ValueError("dataset of kind %r has no model counterpart" % t)
+def e_dump(d):
+    return E.lst(sorted(d.items()), lambda kv: "(%s, %s)" % (zstr(kv[0]), "None" if kv[1] == "G" else "(Some %s)" % e_dset(kv[1])))
+
+def emit_h5(case, out):
+    key = case["cls"]; order = attrs(key)
+    nt = case["objs"][0].get("_ntrait", 0)
+    steps = E.lst(list(zip(out["orig"], case["overwrite"])), lambda p: "(%s, %s)" % (e_obj(p[0], order), E.b(p[1])))
+    def so(i):
+        w = out["writes"][i] is not None
+        d = out["dumps"][i]
+        r = out["reads"][i]
+        return "(%s, %s, %s)" % (E.b(w), "None" if d is None else "(Some %s)" % e_dump(d),
+                                 "None" if "exc" in r else "(Some %s)" % e_obj(r, order))
+    outs = E.lst(range(len(out["orig"])), so)
+    g = case["group"]
+    return "agree_h5 true spec_%s %s %s [] %s %s" % (key, Z(nt), "None" if g is None else "(Some %s)" % zstr(g), steps, outs)
+
+def emit_case(case, out):
+    if "exc" in out: return "false"
+    return {"h5": emit_h5}[case["kind"]](case, out)
+
+# ------------------------------------------------------------------------------------------------ translator hook
+def translate(repo, gen_dir):
+    sys.path.insert(0, os.path.join(os.path.dirname(os.path.dirname(os.path.abspath(__file__))), "translate"))
+    import c16_fields
+    classes = [(k, klass(k), list(CLS[k][3])) for k in CLS]
+    recs, path = c16_fields.generate(classes, gen_dir)
+    return [{"table": "Gen/C16_Fields.v", "classes": len(recs),
+             "written_keys": sum(len(r["written"]) for r in recs), "copied_attrs": sum(len(r["cp_ctor"]) + len(r["cp_post"]) for r in recs)}]
